@@ -6,7 +6,8 @@ from fractions import Fraction as F
 
 
 def _fr(seq):
-    return [F(v) for v in seq]
+    # NaN (a missing sample) is carried as a float NaN; every finite value is exact
+    return [float("nan") if (isinstance(v, float) and v != v) else F(v) for v in seq]
 
 
 class WeaverModel:
@@ -56,6 +57,8 @@ class WeaverModel:
 
     @staticmethod
     def _normalize(a, lo, hi):
+        if any(v != v for v in a):
+            return [float("nan")] * len(a)        # min / max of a series with a missing sample are undefined
         mn, mx = min(a), max(a)
         return [(v - mn) / (mx - mn) * (F(hi) - F(lo)) + F(lo) for v in a]
 
